@@ -5,6 +5,7 @@
                          (Python: scalar | dict, insertion ordered, keys are strings)
   * `allKeys`          – `_getAllKeys`      (all key NAMES at every depth of dict-valued entries)
   * `update`           – `_nestedDictUpdate` (Mapping values recurse with `d.get(k, {})`, others overwrite)
+  * `clash/clashKind`  – whether / with which exception class the update raises (mapping over scalar)
   * `reported`         – the key set printed in the WARNING line (`set(newKeys) - set(validKeys)`)
   * `item/pyFloat/pyStr/rawStr` – `config[a][b]`, `float(·)`, `str(·)`, a bare string value
   * `loadConfig`       – `_loadConfig`
@@ -96,6 +97,29 @@ def clashL : List (String × Cfg α) → List (String × Cfg α) → Bool
     | .node _ =>
       clash ((find? ds k).getD (.node [])) v
         || clashL (setKey ds k (update ((find? ds k).getD (.node [])) v)) us
+end
+
+mutual
+/-- WHICH exception the clash is, in the traversal order of `_nestedDictUpdate`: for the first entry
+`(k2, v2)` of a mapping that meets a scalar `d`, a mapping `v2` fails at `d.get(k2, {})`
+(`AttributeError`: 'float' object has no attribute 'get'), a scalar `v2` at `d[k2] = v2` (`TypeError`). -/
+def clashKind : Cfg α → Cfg α → Option String
+  | .node ds, .node us => clashKindL ds us
+  | .leaf _, .node us =>
+    match us with
+    | [] => none
+    | (_, .node _) :: _ => some "AttributeError"
+    | (_, .leaf _) :: _ => some "TypeError"
+  | _, .leaf _ => none
+def clashKindL : List (String × Cfg α) → List (String × Cfg α) → Option String
+  | _, [] => none
+  | ds, (k, v) :: us =>
+    match v with
+    | .leaf _ => clashKindL (setKey ds k v) us
+    | .node _ =>
+      match clashKind ((find? ds k).getD (.node [])) v with
+      | some e => some e
+      | none => clashKindL (setKey ds k (update ((find? ds k).getD (.node [])) v)) us
 end
 
 /-! ### the unknown-key report -/
@@ -198,7 +222,7 @@ def loadConfig (d : Cfg α) (u : Option (Cfg α)) : Except String (Cfg α × Lis
   | none => .ok (d, [])
   | some (.leaf _) => .error "AttributeError"     -- empty file / scalar document: `.items()` of a non-dict
   | some (.node us) =>
-    if clash d (.node us) then .error "TypeError"
+    if clash d (.node us) then .error ((clashKind d (.node us)).getD "TypeError")
     else .ok (update d (.node us), reported d (.node us))
 
 end Cfg
